@@ -72,6 +72,8 @@ func mkScript(kind string, it, it2 []byte) []byte {
 		return append([]byte{0x6a}, pushOp(it[:9])...)
 	case "emptyscript":
 		return []byte{}
+	case "pushfull": // the whole item as a bare push + OP_DROP: matches like a public key but is not pay-to-pubkey
+		return append(pushOp(it), 0x75)
 	}
 	return []byte{0x51}
 }
@@ -363,6 +365,54 @@ func randFItems(c *Ctx, desc []interface{}, pool int) []interface{} {
 	return f
 }
 
+// scanCases replays the configurations sampled by TLC from the design-level scan model (MC_TxScan):
+// three transactions created in the order 1,2,3, the abstract output kinds realised as scripts, the spend
+// relation as inputs, the initial filter contents as inserted items, in all six block orders.
+func scanCases(c *Ctx) {
+	perms := [][]int{{0, 1, 2}, {0, 2, 1}, {1, 0, 2}, {1, 2, 0}, {2, 0, 1}, {2, 1, 0}}
+	for ci, cs := range readCases(c.Cases) {
+		var desc []interface{}
+		for t, ol := range gList(cs, "outs") {
+			var outs []interface{}
+			for _, o := range ol.([]interface{}) {
+				om := o.(map[string]interface{})
+				kind := "none"
+				if om["push"].(bool) {
+					kind = "pushfull"
+					if om["pk"].(bool) {
+						kind = "pk"
+					}
+				}
+				outs = append(outs, map[string]interface{}{"kind": kind, "item": 0, "item2": 1})
+			}
+			var ins []interface{}
+			for _, sp := range gList(cs, "sp")[t].([]interface{}) {
+				pr := sp.([]interface{})
+				ins = append(ins, map[string]interface{}{"parent": int(pr[0].(float64)) - 1, "out": int(pr[1].(float64)) - 1, "sig": -1, "ext": 0})
+			}
+			if len(ins) == 0 {
+				ins = append(ins, map[string]interface{}{"parent": -1, "out": t, "sig": -1, "ext": ci % 200})
+			}
+			desc = append(desc, map[string]interface{}{"outs": outs, "ins": ins})
+		}
+		var fit []interface{}
+		for _, el := range gList(cs, "i0") {
+			l := el.([]interface{})
+			if l[0].(string) == "item" {
+				fit = append(fit, map[string]interface{}{"t": "item", "k": 0, "kind": "pk"})
+			} else {
+				fit = append(fit, map[string]interface{}{"t": "txid", "i": int(l[1].(float64)) - 1})
+			}
+		}
+		if fit == nil {
+			fit = []interface{}{}
+		}
+		for _, ord := range perms {
+			c.Call(Event{"op": "ScanBlock", "desc": desc, "order": ord, "fitems": fit, "salt": 7000 + ci%50000, "flags": gInt(cs, "flags"), "nbytes": 4096, "nhash": 3, "tweak": w32(uint32(ci)), "src": "MC_TxScan"})
+		}
+	}
+}
+
 func runC10(c *Ctx) {
 	r := c.Rng
 	// single transactions against a filter: result and post-state exact
@@ -419,6 +469,7 @@ func runC10(c *Ctx) {
 	}
 	// block scans: random spend DAGs in topological, reverse and random order
 	c.Batch = 10
+	scanCases(c)
 	for k := 0; k < c.Pick(260, 2500); k++ {
 		n := 2 + r.Intn(5)
 		if k%25 == 0 {
